@@ -56,6 +56,9 @@ func checkC19() int {
 			if m := mut.Mutate(pc.P, r); m != nil {
 				items = append(items, item{m.P.Text(), mode, "mutant", true})
 			}
+		} else if m := mut.Mutate(pc.P, r, "typing"); m != nil {
+			// ill-typed relatives of an accepted program: same type, function and channel names
+			items = append(items, item{m.P.Text(), mode, "mutant", true})
 		}
 		if i%5 == 0 {
 			items = append(items, item{gen.EditText(r, pc.Text, 2), mode, "edit", true})
@@ -106,6 +109,10 @@ func checkC19() int {
 			if r.Intn(6) == 0 {
 				idx = append(idx, k) // repeat
 			}
+			// relatives next to each other: a program and its mutant share every name
+			if items[k].kind == "mutant" && k > 0 && baseObs[k-1] != nil && r.Intn(2) == 0 {
+				idx = append(idx, k-1, k)
+			}
 		}
 		variants := map[string][]int{"forward": idx}
 		if s%3 == 1 {
@@ -130,6 +137,82 @@ func checkC19() int {
 			sjobs = append(sjobs, j)
 			metas = append(metas, seqMeta{ix, kind})
 		}
+	}
+	// sequences on one long-lived RuntimeEnvironment through the real entry point
+	nReuse := c.pick(16, 200)
+	for s := 0; s < nReuse; s++ {
+		n := 3 + r.Intn(6)
+		var idx []int
+		for len(idx) < n {
+			k := r.Intn(len(items))
+			if baseObs[k] == nil || !baseObs[k].ran {
+				continue
+			}
+			idx = append(idx, k)
+		}
+		j := sup.Job{Kind: "seq"}
+		for _, k := range idx {
+			x := job(items[k], k)
+			x.Entry, x.ReuseEnv, x.Profile = "init", true, "none"
+			if x.Mode == "sync" {
+				x.Mode = "async" // the public entry point is used as the CLI uses it
+			}
+			j.Seq = append(j.Seq, x)
+		}
+		sjobs = append(sjobs, j)
+		metas = append(metas, seqMeta{idx, "reused-environment"})
+	}
+	// typecheck-only sequences: many small, related texts (an accepted program, its ill-typed
+	// relatives, each with its declarations in several orders), every one submitted twice in
+	// a row, as a user of the web interface pressing 'run' again would
+	type tcItem struct {
+		text string
+		ok   bool
+		have bool
+	}
+	var tcs []tcItem
+	for i, pc := range base {
+		if i%2 == 1 {
+			continue
+		}
+		tcs = append(tcs, tcItem{text: pc.Text})
+		for k := 0; k < 4; k++ {
+			if m := mut.Mutate(pc.P, r, "typing", "mode", "substructural"); m != nil {
+				tcs = append(tcs, tcItem{text: mut.Permute(m.P, r).Text()})
+			}
+		}
+	}
+	{
+		jobs := make([]sup.Job, len(tcs))
+		for i, t := range tcs {
+			jobs[i] = sup.Job{Kind: "typecheck", Text: t.text}
+		}
+		for i, o := range fresh.Run(jobs, nil) {
+			if o.Res != nil && !o.Died() && o.PostDeath == "" && o.Res.ParseOK {
+				tcs[i].ok, tcs[i].have = o.Res.TcOK, true
+			}
+		}
+	}
+	nTc := c.pick(30, 400)
+	tcSeqStart := len(sjobs)
+	var tcIdx [][]int
+	for s := 0; s < nTc; s++ {
+		j := sup.Job{Kind: "seq"}
+		var idx []int
+		for len(idx) < 120 {
+			k := r.Intn(len(tcs))
+			if !tcs[k].have {
+				continue
+			}
+			reps := 2 + r.Intn(2)
+			for q := 0; q < reps; q++ {
+				idx = append(idx, k)
+				j.Seq = append(j.Seq, sup.Job{Kind: "typecheck", Text: tcs[k].text})
+			}
+		}
+		sjobs = append(sjobs, j)
+		metas = append(metas, seqMeta{nil, "typecheck-only"})
+		tcIdx = append(tcIdx, idx)
 	}
 	pool := newPool()
 	pool.Recycle = 1 // every sequence in its own process
@@ -158,6 +241,30 @@ func checkC19() int {
 			c.Inconc("watchdog")
 			continue
 		}
+		if m.kind == "typecheck-only" {
+			idx := tcIdx[si-tcSeqStart]
+			okSeq := true
+			for i, r2 := range o.Res.Seq {
+				progRuns++
+				if !r2.ParseOK || !r2.TcRan {
+					continue
+				}
+				if r2.TcOK != tcs[idx[i]].ok {
+					w := map[string]interface{}{"position": i, "program": tcs[idx[i]].text, "verdict_in_sequence": r2.TcOK, "verdict_alone": tcs[idx[i]].ok, "error_in_sequence": r2.TcErr}
+					if i > 0 {
+						w["previous_program"] = tcs[idx[i-1]].text
+						w["previous_is_the_same_text"] = idx[i-1] == idx[i]
+					}
+					c.Violation("the type verdict of a program differs after a history of typechecks (typecheck-only sequence)", w)
+					okSeq = false
+					break
+				}
+			}
+			if okSeq {
+				c.Nontrivial(fmt.Sprint("tc", si))
+			}
+			continue
+		}
 		bad := false
 		kinds := map[bool]bool{}
 		for i, r2 := range o.Res.Seq {
@@ -180,6 +287,21 @@ func checkC19() int {
 			}
 			got := obsOf(&r2, items[k].mode)
 			kinds[got.tcOK] = true
+			if m.kind == "reused-environment" {
+				if r2.Run != nil && r2.Run.Premature && r2.Run.ElapsedUs < 45000 && i > 0 {
+					// the 50 ms heartbeat cannot have expired yet: the run was born cancelled
+					w["elapsed_us"] = r2.Run.ElapsedUs
+					c.Violation("a run on a reused RuntimeEnvironment ends before its heartbeat interval could elapse (cancelled from the start)", w)
+					bad = true
+					break
+				}
+				if r2.Run != nil && r2.Run.Premature {
+					c.Inconc("heartbeat-premature")
+					break // later programs of this sequence may see this run's stragglers
+				}
+				// only verdicts and prints are comparable (the entry point and mode differ)
+				got.clean = b.clean
+			}
 			if got != *b {
 				what := "outcome"
 				switch {
@@ -218,6 +340,7 @@ func checkC19() int {
 			c.Sample(map[string]interface{}{"order": m.kind, "history": d, "goroutines_left_at_the_end": o.Res.Seq[len(o.Res.Seq)-1].Goroutines})
 		}
 	}
+	c.Extra["typecheck_only_sequences"] = nTc
 	c.Extra["programs_in_the_pool"] = len(items)
 	c.Extra["program_runs_inside_sequences"] = progRuns
 	c.Extra["sequences_mixing_accepted_and_rejected"] = mixed
